@@ -130,7 +130,10 @@ FILE *make_temp_file(char **filename) {
 	if (get_temp_dir(tmp, XMP_MAXPATH) < 0)
 		return NULL;
 
-	strncat(tmp, "xmp_XXXXXX", XMP_MAXPATH - 10);
+	/* strncat's bound is the room left, not the size of the buffer */
+	if (strlen(tmp) + sizeof("xmp_XXXXXX") > XMP_MAXPATH)
+		return NULL;
+	strncat(tmp, "xmp_XXXXXX", XMP_MAXPATH - strlen(tmp) - 1);
 
 	if ((*filename = libxmp_strdup(tmp)) == NULL)
 		goto err;
